@@ -13,7 +13,7 @@ from vlib import log, ToolError
 MUX = {
     "C02": dict(
         title="bytes intact, in order, exactly once, no cross-talk",
-        mc=dict(quick=["MC_Core_q"], thorough=["MC_Core", "MC_CoreAny_q", "MC_Open"]),
+        mc=dict(quick=["MC_Core_q", "MC_Flush_q"], thorough=["MC_Core", "MC_CoreAny_q", "MC_Open", "MC_Flush"]),
         needs=["AWrite", "ARead", "TRecv", "TSend"],
         sims=dict(quick=[("pair", 120, 90), ("all", 40, 110)], thorough=[("pair", 2500, 140), ("all", 1200, 160), ("open", 800, 140)]),
         nontrivial=lambda r: r.get("ev") == "read" and r.get("res") == "data",
@@ -23,7 +23,7 @@ MUX = {
         title="credit-based flow control",
         mc=dict(quick=["MC_Core_q", "MC_CoreAny_q"], thorough=["MC_Core", "MC_CoreAny_q", "MC_Open"]),
         needs=["AWrite", "ARead", "TRecv", "TSend"],
-        sims=dict(quick=[("pair", 120, 90), ("fair", 60, 80)], thorough=[("pair", 2500, 140), ("fair", 1500, 120), ("all", 800, 160)]),
+        sims=dict(quick=[("pair", 120, 90), ("fair", 60, 80), ("bridge", 80, 90)], thorough=[("pair", 2500, 140), ("fair", 1500, 120), ("all", 800, 160), ("bridge", 1500, 120)]),
         nontrivial=lambda r: r.get("ev") == "task" and any(m.get("op") == "ack" and m.get("n", 0) > 0 for m in r.get("sent", [])),
         rule="a trace counts when a flow-control Acknowledge crossed the link",
     ),
@@ -221,6 +221,11 @@ def attribute(f):
                 for q in list(ls.get("bindq", {}).get(ep, [])) + list(ls.get("breq", {}).get(ep, [])):
                     if q.get("id") in diff_ids:
                         props.add("C15")
+                # a differing frame of a stream that is driven by the bridge speaks about C13 as well
+                hnds = ls.get("hnd", {}).get(ep, [])
+                for hv in (hnds.values() if isinstance(hnds, dict) else hnds):
+                    if hv.get("st") == "bridge" and hv.get("id") in diff_ids:
+                        props.add("C13")
         except Exception:
             pass
         for op in diff_ops:
